@@ -1329,7 +1329,18 @@ class DocutilsRenderer(RendererProtocol):
 
         for key, value in data.items():
             if not isinstance(value, str | int | float | date | datetime):
-                value = json.dumps(value)
+                # note, YAML can construct values that JSON cannot encode
+                # (e.g. nested dates, binary data or sets), which are shown as strings
+                try:
+                    value = json.dumps(
+                        value,
+                        default=lambda obj: sorted(obj, key=str)
+                        if isinstance(obj, set | frozenset)
+                        else str(obj),
+                    )
+                except (TypeError, ValueError):
+                    # e.g. a mapping with a date as key, or a self-referencing alias
+                    value = str(value)
             value = str(value)
             body = nodes.paragraph()
             body.source, body.line = self.document["source"], line
